@@ -120,16 +120,28 @@ func CheckC16(r *core.Run) {
 		_ = label
 		// learn the state described by each slot by invalidating the other one
 		slotState := [2]string{}
+		established := true
 		for s := 0; s < 2; s++ {
 			tmp := append([]byte(nil), img...)
 			o := (1 - s) * ps
 			tmp[o] ^= 0xFF // magic destroyed
 			res, got := openDamaged(tmp, states)
 			if res != "ok" || got == "X" {
-				r.Break("c16: cannot establish the state of slot %d (%s %s)", s, res, got)
-				return
+				// the library does not accept a header that is intact by the documented format
+				// (or shows an unknown state): that is an observation to be judged, not a harness failure
+				d0, d1 := fenv.DecodeHeader(tmp[0:]), fenv.DecodeHeader(tmp[ps:])
+				mu.Lock()
+				events = append(events, core.Event{"ev": "Open", "case": fmt.Sprintf("base%d/only-slot%d-intact", bi, s), "v0": d0.OK, "v1": d1.OK,
+					"newer": 0, "s0": "S?", "s1": "S?", "res": res, "got": got})
+				cases++
+				mu.Unlock()
+				established = false
+				continue
 			}
 			slotState[s] = got
+		}
+		if !established {
+			continue
 		}
 		var list []hdrCase
 		add := func(name string, f func(b []byte)) {
